@@ -51,8 +51,20 @@ func genC10(t *rapid.T) c10Case {
 			text = strings.Replace(text, "prefixes:\n", "prefixes:\n  zz: \""+ns+"\"\n", 1)
 		}
 		c.Profiles = append(c.Profiles, text)
-		for _, g := range graphs {
+		for gi, g := range graphs {
 			doc := g.JSONLD(genLDOpts(t, len(g.Nodes)))
+			if rapid.Bool().Draw(t, "lexical") {
+				// source maps with additional locations, file names unique per document
+				sm := genSourceMaps(t, g)
+				sm.Root = fmt.Sprintf("file:///root-%d-%d.raml", i, gi)
+				if len(sm.Files) == 0 {
+					sm.Files = append(sm.Files, m.FileLoc{Nodes: []int{0}})
+				}
+				for fi := range sm.Files {
+					sm.Files[fi].Location = fmt.Sprintf("file:///lib-%d-%d-%d.raml", i, gi, fi)
+				}
+				doc = sm.Attach(g).JSONLD(genLDOpts(t, 0))
+			}
 			c.Docs = append(c.Docs, strings.ReplaceAll(doc, m.NS, ns))
 		}
 	}
